@@ -6,6 +6,8 @@ import ast
 
 from gv import rules
 from gv.astutil import AnalysisError
+from gv.astutil import arg_or_kw
+from gv.astutil import as_update
 from gv.astutil import compare_parts
 from gv.astutil import dotted
 from gv.astutil import last_attr
@@ -20,6 +22,8 @@ from gv.cursor import check_cursor_loops
 from gv.props import describe
 from gv.props.c06 import check_identity_blocks
 from gv.props.shared import branch_conditions
+from gv.props.shared import expand_accessor
+from gv.props.shared import unfolded
 from gv.report import Ctx
 from gv.report import cname
 from gv.shapes import ShapeAnalysis
@@ -58,6 +62,136 @@ PARAM_KINDS = {
 RESULT = ("dict", ("arr", ("F", "X")))
 
 
+class _Shapes(ShapeAnalysis):
+    """Axis-kind typing in which a chained assignment ``a = d[k] = v`` stores into every target (the engine's effect
+    looks at single-target assignments only): ``d`` becomes a mapping of ``v`` whether or not the value is also named."""
+
+    def _effect(self, node, env):
+        if isinstance(node, ast.Assign) and len(node.targets) > 1:
+            out = None
+            for t in node.targets:
+                new = super()._effect(ast.copy_location(ast.Assign(targets=[t], value=node.value), node), env if out is None else out)
+                if new is not None:
+                    out = new
+            return out
+        return super()._effect(node, env)
+
+
+def _alpha(e: ast.AST) -> str:
+    """Text of an expression up to the names of its comprehension variables and to list/generator comprehension."""
+    import copy
+
+    e = copy.deepcopy(e)
+    ren: dict[str, str] = {}
+    for n in ast.walk(e):
+        if isinstance(n, ast.comprehension):
+            for t in ast.walk(n.target):
+                if isinstance(t, ast.Name):
+                    ren.setdefault(t.id, f"_v{len(ren)}")
+
+    class R(ast.NodeTransformer):
+        def visit_Name(self, n):  # noqa: N802
+            return ast.copy_location(ast.Name(id=ren[n.id], ctx=n.ctx), n) if n.id in ren else n
+
+        def visit_ListComp(self, n):  # noqa: N802
+            self.generic_visit(n)
+            return ast.copy_location(ast.GeneratorExp(elt=n.elt, generators=n.generators), n)
+
+    return ast.unparse(ast.fix_missing_locations(R().visit(e)))
+
+
+_INIT_CACHE: dict = {}
+
+
+def unfolded_from_entry(func: ast.AST, node: ast.AST, facts: dict[str, bool] | None = None, get=None) -> list[ast.AST] | None:
+    """``unfolded`` in which a parameter that is re-assigned on some paths only keeps its entry value as an alternative.
+
+    The symbolic values start from an empty environment, so at a join a name bound on one side only (a parameter
+    re-assigned under a condition) would lose the other side; every parameter is therefore first bound to itself."""
+    import copy
+
+    if id(func) not in _INIT_CACHE:
+        g = copy.deepcopy(func)
+        first = g.body[0]
+        inits = [ast.copy_location(ast.Assign(targets=[ast.Name(id=p, ctx=ast.Store())], value=ast.Name(id=p, ctx=ast.Load())), first) for p in param_names(func)]
+        for st in inits:
+            for sub in ast.walk(st):
+                ast.copy_location(sub, first)
+                sub.end_lineno, sub.end_col_offset = first.lineno, first.col_offset  # an empty span: matches no real node
+        g.body[:0] = inits
+        _INIT_CACHE[id(func)] = (func, g)
+    g = _INIT_CACHE[id(func)][1]
+
+    def loc(n):
+        return (type(n), getattr(n, "lineno", None), getattr(n, "col_offset", None), getattr(n, "end_lineno", None), getattr(n, "end_col_offset", None))
+
+    twin = [n for n in ast.walk(g) if loc(n) == loc(node)]
+    if not twin:
+        raise AnalysisError(f"{norm_stmt(node)!r} not found again in {getattr(func, 'name', '?')}")
+    return unfolded(g, twin[0], facts, get)
+
+
+_SIGN_KEEPING_FUNCS = {"csc_matrix", "csr_matrix", "dok_matrix", "array", "asarray", "np_array", "atleast_1d", "atleast_2d", "real", "ascontiguousarray", "to_real", "copy", "deepcopy", "transpose", "squeeze", "ravel"}
+_SIGN_KEEPING_METHODS = {"toarray", "todense", "copy", "astype", "tocsr", "tocsc", "todok", "tolil", "tocoo", "squeeze", "ravel", "flatten", "view", "transpose", "reshape"}
+
+
+def _signed(e: ast.AST) -> tuple[int, ast.AST]:
+    """(sign, core): ``e`` is ``sign * core`` up to operations that keep the sign of every entry (transposition,
+    densification, format conversion, copy, reshape)."""
+    if isinstance(e, ast.UnaryOp) and isinstance(e.op, (ast.USub, ast.UAdd)):
+        sg, c = _signed(e.operand)
+        return (-sg if isinstance(e.op, ast.USub) else sg), c
+    if isinstance(e, ast.Attribute) and e.attr in ("T", "real", "A"):
+        return _signed(e.value)
+    if isinstance(e, ast.Call) and isinstance(e.func, ast.Attribute) and e.func.attr in _SIGN_KEEPING_METHODS and dotted(e.func.value) not in ("np", "numpy"):
+        return _signed(e.func.value)
+    if isinstance(e, ast.Call) and last_attr(e) in _SIGN_KEEPING_FUNCS and e.args and (isinstance(e.func, ast.Name) or dotted(e.func.value) in ("np", "numpy")):
+        return _signed(e.args[0])
+    if isinstance(e, ast.Call) and last_attr(e) == "negative" and len(e.args) == 1 and (isinstance(e.func, ast.Name) or dotted(e.func.value) in ("np", "numpy")):
+        sg, c = _signed(e.args[0])
+        return -sg, c
+    if isinstance(e, ast.BinOp) and isinstance(e.op, (ast.Mult, ast.Div)):
+        for k, o in ((e.left, e.right), (e.right, e.left)):
+            if isinstance(e.op, ast.Div) and k is e.left:
+                continue  # const / x is not a signed copy of x
+            sk, ck = _signed(k)
+            if isinstance(ck, ast.Constant) and isinstance(ck.value, (int, float)) and not isinstance(ck.value, bool) and ck.value != 0:
+                so, co = _signed(o)
+                return sk * so * (1 if ck.value > 0 else -1), co
+    return 1, e
+
+
+def signed_terms(e: ast.AST, sign: int = 1) -> list[tuple[int, ast.AST]]:
+    """``e`` as a signed sum: [(+1 or -1, term), ...]."""
+    sg, c = _signed(e)
+    if isinstance(c, ast.BinOp) and isinstance(c.op, (ast.Add, ast.Sub)):
+        return signed_terms(c.left, sign * sg) + signed_terms(c.right, sign * sg * (1 if isinstance(c.op, ast.Add) else -1))
+    return [(sign * sg, c)]
+
+
+def _is_product(e: ast.AST) -> bool:
+    return any((isinstance(n, ast.BinOp) and isinstance(n.op, ast.MatMult)) or (isinstance(n, ast.Call) and last_attr(n) in ("dot", "matmul")) for n in ast.walk(e))
+
+
+def branches(e: ast.AST) -> list[ast.AST]:
+    """The values a (nested) conditional expression can take."""
+    return branches(e.body) + branches(e.orelse) if isinstance(e, ast.IfExp) else [e]
+
+
+def dimension_names(index, cls, e: ast.AST) -> ast.AST | None:
+    """``names`` when ``e`` is the number of components of ``names``: ``self.compute_dimension(names)`` or, spelled
+    out, the very expression that accessor returns for ``names`` (today ``sum(self.sizes[n] for n in names)``)."""
+    if isinstance(e, ast.Call) and norm_stmt(e.func) == "self.compute_dimension" and len(e.args) == 1 and not e.keywords:
+        return e.args[0]
+    if isinstance(e, ast.Call) and dotted(e.func) == "sum" and len(e.args) == 1 and isinstance(e.args[0], (ast.GeneratorExp, ast.ListComp)) and len(e.args[0].generators) == 1:
+        names = e.args[0].generators[0].iter
+        call = ast.Call(func=ast.Attribute(value=ast.Name(id="self", ctx=ast.Load()), attr="compute_dimension", ctx=ast.Load()), args=[names], keywords=[])
+        body = expand_accessor(index, cls, ast.fix_missing_locations(ast.copy_location(call, e)))
+        if body is not call and _alpha(body) == _alpha(e):
+            return names
+    return None
+
+
 def check_solve_routines(ctx: Ctx) -> None:
     signs = {}
     for m in ("_direct_mode", "_direct_mode_lu", "_adjoint_mode", "_adjoint_mode_lu"):
@@ -65,7 +199,7 @@ def check_solve_routines(ctx: Ctx) -> None:
         con = cname(ASM, "CoupledSystem", m)
         init = {p: PARAM_KINDS[p] for p in param_names(f) if p in PARAM_KINDS}
         ctx.need(len(init) >= 4, f"{m}: the typed parameters were not found")
-        sa = ShapeAnalysis(f, init)
+        sa = _Shapes(f, init)
         bad = {}
         for node, msg in sa.problems:
             bad.setdefault(id(rules.enclosing_stmt(f, node)) if not isinstance(node, ast.stmt) else id(node), []).append(msg)
@@ -84,27 +218,49 @@ def check_solve_routines(ctx: Ctx) -> None:
             if (id(st), _what_of(msg)) not in seen_stmt:
                 ctx.ob("7.1-kinds", con, False, msg, node=st, stmt=f"{_what_of(msg)}: {norm_stmt(st, 90)}")
         rets = [s for s in stmts_of(f) if isinstance(s, ast.Return)]
-        ctx.need(len(rets) == 1, f"{m}: single return expected")
-        rv = sa.value(rets[0].value)
-        ctx.ob("7.1-result", con, rv == RESULT, f"{m} must return, per function, an array functions x variables; got {rv}", node=rets[0], slots={"result": str(rv)})
-        # 7.2 signs
-        rhs_sign = None
+        ctx.need(rets and all(r.value is not None for r in rets), f"{m}: a returned value expected")
+        for ret in rets:
+            rv = sa.value(ret.value)
+            ctx.ob("7.1-result", con, rv == RESULT, f"{m} must return, per function, an array functions x variables; got {rv}", node=ret, slots={"result": str(rv)})
+        # 7.2 signs: the right-hand side and the stored total derivative are read as signed sums, so the sign is found
+        # wherever the minus is written (before or after a transpose / densification, as negative(x) or -1 * x) and
+        # whichever way round the two terms of the combination are
+        rhs_signs = set()
         for s in stmts_of(f):
-            if isinstance(s, ast.Assign) and (dotted(s.targets[0]) in ("rhs", "self.linear_problem.rhs")):
-                v = s.value
-                while isinstance(v, ast.Attribute) or (isinstance(v, ast.Call) and isinstance(v.func, ast.Attribute) and v.func.attr in ("todense", "toarray", "T")):
-                    v = v.value if isinstance(v, ast.Attribute) else v.func.value
-                rhs_sign = -1 if isinstance(v, ast.UnaryOp) and isinstance(v.op, ast.USub) else 1
-                rhs_node = s
-        comb_sign = None
+            if isinstance(s, ast.Assign) and any(dotted(t) in ("rhs", "self.linear_problem.rhs") for t in s.targets):
+                for alt in unfolded(f, s.value) or [s.value]:
+                    ts = signed_terms(alt)
+                    rhs_signs.add(ts[0][0] if len(ts) == 1 else None)
+        rhs_sign = next(iter(rhs_signs)) if len(rhs_signs) == 1 else None
+        combs = []  # (statement, sign of the partial derivative term, sign of the product term)
         for s in stmts_of(f):
-            v_ = s.value.value if isinstance(s, ast.Assign) and isinstance(s.value, ast.DictComp) else (s.value if isinstance(s, ast.Assign) and isinstance(s.targets[0], ast.Subscript) else None)
-            if v_ is not None and isinstance(v_, ast.BinOp) and isinstance(v_.op, (ast.Add, ast.Sub)) and any("dfun" in n for n in names_in(v_)):
-                comb_sign = 1 if isinstance(v_.op, ast.Add) else -1
-                comb_node = s
-        ctx.need(rhs_sign is not None and comb_sign is not None, f"{m}: right-hand side / combination statements not recognised")
+            if isinstance(s, (ast.Assign, ast.Return)) and isinstance(s.value, ast.DictComp):
+                values, acc = [s.value.value], 0
+            elif isinstance(s, ast.Assign) and len(s.targets) == 1 and isinstance(s.targets[0], ast.Subscript):
+                values, acc = unfolded(f, s.value) or [s.value], 0
+            elif isinstance(s, ast.AugAssign) and isinstance(s.target, ast.Subscript) and isinstance(s.op, (ast.Add, ast.Sub)):
+                values, acc = [s.value], 1 if isinstance(s.op, ast.Add) else -1
+            else:
+                continue
+            for v_ in values:
+                ts = signed_terms(v_)
+                prods = [(sg, t) for sg, t in ts if _is_product(t)]
+                parts = [(sg, t) for sg, t in ts if not _is_product(t)]
+                if acc:
+                    # `d[k] += product`: the partial derivative is what `d[k]` was set to before
+                    if len(prods) != 1 or parts:
+                        continue
+                    before = [b for b in stmts_of(f) if isinstance(b, ast.Assign) and any(norm_stmt(t) == norm_stmt(s.target) for t in b.targets) and any("dfun" in n for n in names_in(b.value))]
+                    if len(before) == 1 and cfg_of(f).dominates(cfg_of(f).node_of(before[0]), cfg_of(f).node_of(s)):
+                        pt = signed_terms(before[0].value)
+                        if len(pt) == 1 and not _is_product(pt[0][1]):
+                            combs.append((s, pt[0][0], acc * prods[0][0]))
+                elif len(prods) == 1 and len(parts) == 1 and any("dfun" in n for n in names_in(v_)):
+                    combs.append((s, parts[0][0], prods[0][0]))
+        ctx.need(rhs_sign is not None and combs and len({c[1:] for c in combs}) == 1, f"{m}: right-hand side / combination statements not recognised")
+        comb_node, part_sign, comb_sign = combs[-1]
         signs[m] = (rhs_sign, comb_sign)
-        ctx.ob("7.2-signs", con, rhs_sign * comb_sign == -1, f"total derivative = dF/dx - dF/dy (dR/dy)^-1 dR/dx: the product of the right-hand-side sign ({rhs_sign}) and of the combination sign ({comb_sign}) must be -1", node=comb_node, slots={"rhs": rhs_sign, "combination": comb_sign})
+        ctx.ob("7.2-signs", con, part_sign == 1 and rhs_sign * comb_sign == -1, f"total derivative = dF/dx - dF/dy (dR/dy)^-1 dR/dx: the partial derivative enters with sign {part_sign} (must be +1) and the product of the right-hand-side sign ({rhs_sign}) and of the combination sign ({comb_sign}) must be -1", node=comb_node, slots={"rhs": rhs_sign, "combination": comb_sign})
     ctx.floor("7.1-kinds", 20)
     # dispatchers forward their parameters by name
     for disp, targets in (("direct_mode", ("_direct_mode", "_direct_mode_lu")), ("adjoint_mode", ("_adjoint_mode", "_adjoint_mode_lu"))):
@@ -148,6 +304,7 @@ NAME_KINDS = {"couplings_and_res": "R", "couplings_and_states": "Y", "variables"
 def check_call_site(ctx: Ctx) -> None:
     f = ctx.index.method(ASM, "JacobianAssembly", "total_derivatives")
     con = cname(ASM, "JacobianAssembly", "total_derivatives")
+    cls = ctx.index.cls(ASM, "JacobianAssembly")
 
     def kind_of_names(e: ast.AST):
         d = dotted(e)
@@ -162,13 +319,14 @@ def check_call_site(ctx: Ctx) -> None:
             r, c = kind_of_names(e.args[0]), kind_of_names(e.args[1])
             if r and c:
                 return arr(r, c)
-        if last_attr(e) == "compute_dimension" and e.args:
-            k = kind_of_names(e.args[0])
+        names = dimension_names(ctx.index, cls, e)
+        if names is not None:
+            k = kind_of_names(names)
             if k:
                 return one(("dim", k))
         return None
 
-    sa = ShapeAnalysis(f, {}, extra_call=extra_call)
+    sa = _Shapes(f, {}, extra_call=extra_call)
     n = 0
     for callee, disp in (("direct_mode", "direct_mode"), ("adjoint_mode", "adjoint_mode")):
         calls = [c for c in walk_body(f) if isinstance(c, ast.Call) and last_attr(c) == callee and "coupled_system" in (dotted(c.func) or "")]
@@ -193,11 +351,17 @@ def check_call_site(ctx: Ctx) -> None:
     # 7.4 dispatch
     cfg = cfg_of(f)
     modes = ctx.index.cls("core/derivatives/derivation_modes.py", "DerivationMode")
+    # the dispatched value is whatever local the tests compare with self.DerivationMode.<X> (either side of ==)
     handled = {}
+    subject = {}
     for n_ in cfg.nodes(lambda k: cfg.kind[k] == "test"):
         cp = compare_parts(cfg.ast[n_].test)
-        if cp and cp[1] is ast.Eq and dotted(cp[0]) == "mode" and (dotted(cp[2]) or "").startswith("self.DerivationMode."):
-            handled[dotted(cp[2]).split(".")[-1]] = n_
+        if not cp or cp[1] is not ast.Eq:
+            continue
+        for subj, const in ((cp[0], cp[2]), (cp[2], cp[0])):
+            if (dotted(const) or "").startswith("self.DerivationMode.") and isinstance(subj, ast.Name):
+                handled[dotted(const).split(".")[-1]] = n_
+                subject[n_] = subj
     dcall = [c for c in walk_body(f) if isinstance(c, ast.Call) and last_attr(c) == "direct_mode"][0]
     acall = [c for c in walk_body(f) if isinstance(c, ast.Call) and last_attr(c) == "adjoint_mode"][0]
     ok = set(handled) == {"DIRECT", "ADJOINT"} and cfg.under_branch(cfg.node_of(dcall), handled["DIRECT"], True) and cfg.under_branch(cfg.node_of(acall), handled["ADJOINT"], True)
@@ -205,24 +369,144 @@ def check_call_site(ctx: Ctx) -> None:
     raises = [s for s in stmts_of(f) if isinstance(s, ast.Raise)]
     ok = any(all(not v for t, v in branch_conditions(cfg, cfg.node_of(r)) if t in handled.values()) and len([1 for t, v in branch_conditions(cfg, cfg.node_of(r)) if t in handled.values()]) == len(handled) for r in raises)
     ctx.ob("7.4-dispatch", con, ok, "any other derivation mode must raise", node=(raises or [f])[0], stmt="other modes raise")
-    res = [s for s in stmts_of(f) if isinstance(s, ast.Assign) and dotted(s.targets[0]) == "mode" and isinstance(s.value, ast.Call) and last_attr(s.value) == "_get_derivation_mode"]
-    ok = len(res) == 1 and [dotted(a) for a in res[0].value.args] == ["mode", "n_variables", "n_functions"] and all(cfg.dominates(cfg.node_of(res[0]), t) for t in handled.values())
-    ctx.ob("7.4-dispatch", con, ok, "AUTO must be resolved with (mode, n_variables, n_functions) before the dispatch", node=(res or [f])[0])
-    g = ctx.index.method(ASM, "JacobianAssembly", "_get_derivation_mode")
-    cg = cfg_of(g)
-    rets = {dotted(s.value): s for s in stmts_of(g) if isinstance(s, ast.Return)}
+    # every dispatched value IS self._get_derivation_mode(<requested mode>, <number of variable components>, <number of
+    # function components>), whatever the local that carries it is called
+    resolver = ctx.index.method(ASM, "JacobianAssembly", "_get_derivation_mode")
+    rparams = [p for p in param_names(resolver) if p not in ("self", "cls")]
+
+    def resolutions(subj: ast.Name) -> list[ast.AST]:
+        out = []
+        for alt in unfolded_from_entry(f, subj) or [subj]:
+            if isinstance(alt, ast.Name):
+                # opaque for the symbolic unfolding: its definitions, one of which must come before the test
+                defs = [s_ for s_ in stmts_of(f) if isinstance(s_, ast.Assign) and any(dotted(t) == alt.id for t in s_.targets)]
+                if not any(cfg.dominates(cfg.node_of(s_), cfg.node_of(subj)) for s_ in defs):
+                    out.append(alt)
+                out += [s_.value for s_ in defs]
+            else:
+                out.append(alt)
+        return out
+
+    def resolves(call: ast.AST, at: ast.AST) -> bool:
+        if not (isinstance(call, ast.Call) and last_attr(call) == "_get_derivation_mode" and dotted(call.func) in ("self._get_derivation_mode", "cls._get_derivation_mode")):
+            return False
+        bound = dict(zip(rparams, call.args))
+        bound.update({k.arg: k.value for k in call.keywords if k.arg})
+        if set(bound) != {"mode", "n_variables", "n_functions"} or dotted(bound["mode"]) != "mode" or "mode" not in param_names(f):
+            return False
+        env = sa.fw.at(at)
+        return single(sa.evaluate(bound["n_variables"], env)) == ("dim", "X") and single(sa.evaluate(bound["n_functions"], env)) == ("dim", "F")
+
+    res = [(subject[t], r) for t in handled.values() for r in resolutions(subject[t])]
+    ok = bool(res) and all(resolves(r, subj) for subj, r in res)
+    first = [s_ for s_ in stmts_of(f) if isinstance(s_, ast.Assign) and isinstance(s_.value, ast.Call) and last_attr(s_.value) == "_get_derivation_mode"]
+    ctx.ob("7.4-dispatch", con, ok, "AUTO must be resolved with (mode, n_variables, n_functions) before the dispatch", node=(first or [f])[0])
+    g = resolver
     # which of the two modes AUTO picks is a performance choice: the property only asks that the result does not
-    # depend on it, so the rule is: an explicit mode is kept, AUTO resolves to DIRECT or ADJOINT
-    ok = "mode" in rets and {"cls.DerivationMode.ADJOINT", "cls.DerivationMode.DIRECT"} & set(rets) and set(rets) <= {"mode", "cls.DerivationMode.ADJOINT", "cls.DerivationMode.DIRECT"}
+    # depend on it, so the rule is: an explicit mode is kept, AUTO resolves to DIRECT or ADJOINT.  Decided per case:
+    # the function is specialised on the outcome of its `mode ==/!= AUTO` test(s) and the values it can return are
+    # unfolded, so early returns and a re-assigned `mode` returned at the end read the same.
+    auto_tests = {}
+    for n_ in ast.walk(g):
+        cp = compare_parts(n_) if isinstance(n_, ast.Compare) else None
+        if cp and cp[1] in (ast.Eq, ast.NotEq) and {dotted(cp[0]), dotted(cp[2])} == {"mode", "cls.DerivationMode.AUTO"}:
+            auto_tests[norm_stmt(n_)] = cp[1] is ast.Eq
+    rets = [s for s in stmts_of(g) if isinstance(s, ast.Return)]
+    modes = {"cls.DerivationMode.ADJOINT", "cls.DerivationMode.DIRECT"}
+
+    def returned(is_auto: bool) -> set[str] | None:
+        out = set()
+        for r in rets:
+            alts = unfolded_from_entry(g, r, {t: (eq == is_auto) for t, eq in auto_tests.items()}, get=lambda st: st.value)
+            for a in [b for a_ in alts or [] for b in branches(a_)]:
+                out.add(dotted(a) or norm_stmt(a))
+        return out
+
+    ok = bool(auto_tests) and bool(rets) and all(r.value is not None for r in rets)
+    if ok:
+        explicit, auto = returned(False), returned(True)
+        ok = explicit == {"mode"} and bool(auto) and auto <= modes
     ctx.ob("7.4-auto", cname(ASM, "JacobianAssembly", "_get_derivation_mode"), bool(ok), "an explicit mode must be returned unchanged and AUTO must resolve to DIRECT or ADJOINT", node=g, stmt="explicit mode kept; AUTO -> DIRECT or ADJOINT")
     # the result is split with the variables
     sp = rules.self_calls(f, "split_jac")
-    ok = len(sp) == 1 and dotted(sp[0].args[1]) == "variables"
+    ok = bool(sp) and all(dotted(arg_or_kw(c, 1, "variables")) == "variables" for c in sp)
     ctx.ob("7.4-split", con, ok, "the total derivatives must be split per variable with the requested variables", node=(sp or [f])[0])
 
 
+def cursor_form(func: ast.AST) -> ast.AST:
+    """Copy of ``func`` in which a running cursor reads in the one form the cursor rule knows (``use [c : c + n]``
+    then ``c += n``):
+
+    * ``c = c + n`` is ``c += n``;
+    * a named window end, ``e = c + n`` ... ``use [c : e]`` ... ``c = e`` in one block, is unfolded: ``e`` is replaced
+      by ``c + n`` and ``c = e`` by ``c += n``.  Only when that is the same program: ``e`` is bound there and nowhere
+      else and read only between the two statements, and nothing in between re-binds ``c``, ``e`` or what ``n`` reads.
+    """
+    import copy
+
+    g = copy.deepcopy(func)
+    stores: dict[str, int] = {}
+    for n in ast.walk(g):
+        if isinstance(n, ast.Name) and isinstance(n.ctx, (ast.Store, ast.Del)):
+            stores[n.id] = stores.get(n.id, 0) + 1
+
+    def rebinds(stmts: list[ast.stmt], names: set[str], texts: set[str]) -> bool:
+        for st in stmts:
+            for n in ast.walk(st):
+                if isinstance(n, ast.Name) and isinstance(n.ctx, (ast.Store, ast.Del)) and n.id in names:
+                    return True
+                if isinstance(n, (ast.Attribute, ast.Subscript)) and isinstance(n.ctx, (ast.Store, ast.Del)) and any(ast.unparse(n.value) in t or ast.unparse(n) in t for t in texts):
+                    return True
+        return False
+
+    def fold(body: list[ast.stmt]) -> None:
+        i = 0
+        while i < len(body):
+            st = body[i]
+            if isinstance(st, ast.Assign) and len(st.targets) == 1 and isinstance(st.targets[0], ast.Name) and isinstance(st.value, ast.BinOp) and isinstance(st.value.op, ast.Add):
+                end = st.targets[0].id
+                for cur, amount in ((st.value.left, st.value.right), (st.value.right, st.value.left)):
+                    if not isinstance(cur, ast.Name) or cur.id == end or stores.get(end) != 1 or end in names_in(amount):
+                        continue
+                    js = [j for j in range(i + 1, len(body)) if isinstance(body[j], ast.Assign) and len(body[j].targets) == 1 and dotted(body[j].targets[0]) == cur.id and dotted(body[j].value) == end]
+                    if not js:
+                        continue
+                    j = js[0]
+                    between = body[i + 1 : j]
+                    inside = {id(n) for b in [*between, body[j]] for n in ast.walk(b)}
+                    reads_elsewhere = any(isinstance(n, ast.Name) and n.id == end and isinstance(n.ctx, ast.Load) and id(n) not in inside for n in ast.walk(g))
+                    if reads_elsewhere or rebinds(between, {cur.id, end} | names_in(amount), {ast.unparse(amount)} if not isinstance(amount, ast.Name) else set()):
+                        continue
+                    window = ast.BinOp(left=ast.Name(id=cur.id, ctx=ast.Load()), op=ast.Add(), right=amount)
+
+                    class R(ast.NodeTransformer):
+                        def visit_Name(self, n):  # noqa: N802
+                            if n.id == end and isinstance(n.ctx, ast.Load):
+                                return ast.fix_missing_locations(ast.copy_location(copy.deepcopy(window), n))
+                            return n
+
+                    new = [R().visit(b) for b in between]
+                    adv = ast.AugAssign(target=ast.Name(id=cur.id, ctx=ast.Store()), op=ast.Add(), value=copy.deepcopy(amount))
+                    body[i : j + 1] = [*new, ast.fix_missing_locations(ast.copy_location(adv, body[j]))]
+                    break
+            i += 1
+        for k, st in enumerate(body):
+            up = as_update(st)
+            if isinstance(st, ast.Assign) and up and isinstance(up[0], ast.Name) and isinstance(up[1], ast.Add):
+                body[k] = ast.fix_missing_locations(ast.copy_location(ast.AugAssign(target=ast.Name(id=up[0].id, ctx=ast.Store()), op=ast.Add(), value=up[2]), st))
+            for fld in ("body", "orelse", "finalbody"):
+                sub = getattr(body[k], fld, None)
+                if isinstance(sub, list) and sub and isinstance(sub[0], ast.stmt):
+                    fold(sub)
+            for h in getattr(body[k], "handlers", []) or []:
+                fold(h.body)
+
+    fold(g.body)
+    return g
+
+
 def check_cursors(ctx: Ctx) -> None:
-    g = ctx.index.method(ASM, "JacobianAssembly", "_get_jacobian_generator")
+    g = cursor_form(ctx.index.method(ASM, "JacobianAssembly", "_get_jacobian_generator"))
     check_cursor_loops(ctx, "7.4-cursor", cname(ASM, "JacobianAssembly", "_get_jacobian_generator"), g, min_loops=2)
     # sizes come from the loop's own names
     con = cname(ASM, "JacobianAssembly", "_get_jacobian_generator")
@@ -234,7 +518,7 @@ def check_cursors(ctx: Ctx) -> None:
             v = d[0].value if d else v
         ok = isinstance(v, ast.Subscript) and dotted(v.value) == "self.sizes"
         ctx.ob("7.4-cursor", con, ok, f"the cursor {s.target.id} must advance by self.sizes[<name>]", node=s, stmt=f"{s.target.id} advances by self.sizes[...]")
-    h = ctx.index.method(ASM, "JacobianAssembly", "split_jac")
+    h = cursor_form(ctx.index.method(ASM, "JacobianAssembly", "split_jac"))
     check_cursor_loops(ctx, "7.4-cursor", cname(ASM, "JacobianAssembly", "split_jac"), h, min_loops=1)
     sl = [n for n in walk_body(h) if isinstance(n, ast.Subscript) and isinstance(n.slice, ast.Tuple) and len(n.slice.elts) == 2]
     ok = len(sl) == 1 and isinstance(sl[0].slice.elts[0], ast.Slice) and sl[0].slice.elts[0].lower is None and isinstance(sl[0].slice.elts[1], ast.Slice) and sl[0].slice.elts[1].lower is not None
@@ -251,18 +535,33 @@ def check_cache_key(ctx: Ctx) -> None:
     ctx.need(len(tests) == 1, "_compute_diff_ios_and_couplings: the cache test was not found")
     t = tests[0]
     cp = compare_parts(cfg.ast[t].test)
+    ctx.need(cp is not None, "_compute_diff_ios_and_couplings: the cache test is not a comparison")
     other = cp[2] if isinstance(cp[0], ast.Attribute) and cp[0].attr in keyn else cp[0]
-    key = dotted(other)
-    kd = [s for s in stmts_of(f) if isinstance(s, ast.Assign) and dotted(s.targets[0]) == key]
-    elts = {norm_stmt(e).replace("frozenset(", "set(") for e in kd[0].value.elts} if len(kd) == 1 and isinstance(kd[0].value, ast.Tuple) else set()
-    ok = cp[1] in (ast.NotEq, ast.Eq) and {"set(functions)", "set(variables)"} <= elts
+    # the request the stored key is compared with, whatever local carries it
+    req = unfolded(f, other) or [other]
+    elts = [{norm_stmt(e).replace("frozenset(", "set(") for e in r.elts} if isinstance(r, ast.Tuple) else set() for r in req]
+    ok = cp[1] in (ast.NotEq, ast.Eq) and all({"set(functions)", "set(variables)"} <= e for e in elts)
     ctx.ob("7.5-cache-key", con, ok, "the minimal-couplings cache must be keyed by (at least) the whole request set(variables), set(functions) and recomputed when it differs", node=cfg.ast[t])
-    wr_key = [s for s in stmts_of(f) if isinstance(s, ast.Assign) and isinstance(s.targets[0], ast.Attribute) and s.targets[0].attr in keyn]
-    wr_val = [s for s in stmts_of(f) if isinstance(s, ast.Assign) and isinstance(s.targets[0], ast.Attribute) and s.targets[0].attr in valn]
-    ok = len(wr_key) == 1 and len(wr_val) == 1 and dotted(wr_key[0].value) == key and cfg.under_branch(cfg.node_of(wr_key[0]), t, True) and cfg.under_branch(cfg.node_of(wr_val[0]), t, True)
+    # the recomputation branch is the one taken when the keys DIFFER: the true side of !=, the false side of ==
+    # (an early `return` of the cached value on equality puts the recomputation after the `if`, not inside it)
+    differs = cfg.branch.get((t, cp[1] is ast.NotEq))
+    wr_key = [s for s in stmts_of(f) if isinstance(s, ast.Assign) and any(isinstance(x, ast.Attribute) and x.attr in keyn for x in s.targets)]
+    wr_val = [s for s in stmts_of(f) if isinstance(s, ast.Assign) and any(isinstance(x, ast.Attribute) and x.attr in valn for x in s.targets)]
+    ok = len(wr_key) == 1 and len(wr_val) == 1 and differs is not None
+    if ok:
+        nk, nv = cfg.node_of(wr_key[0]), cfg.node_of(wr_val[0])
+        stored = {norm_stmt(x) for x in unfolded(f, wr_key[0].value) or [wr_key[0].value]}
+        ok = (
+            stored == {norm_stmt(x) for x in req}
+            and cfg.dominates(differs, nk)
+            and cfg.dominates(differs, nv)
+            # ... and both are written whenever the recomputation branch runs to its end
+            and cfg.must_pass(differs, {nk})
+            and cfg.must_pass(differs, {nv})
+        )
     ctx.ob("7.5-cache-key", con, ok, "key and cached value must be updated together, in the recomputation branch", node=(wr_key or [f])[0], stmt="key and value updated in the same branch")
     rets = [s for s in stmts_of(f) if isinstance(s, ast.Return)]
-    ok = len(rets) == 1 and isinstance(rets[0].value, ast.Attribute) and rets[0].value.attr in valn
+    ok = bool(rets) and all(isinstance(r.value, ast.Attribute) and r.value.attr in valn and dotted(r.value.value) == "self" for r in rets)
     ctx.ob("7.5-cache-key", con, ok, "the cached value is what is returned", node=(rets or [f])[0])
     # nothing else writes them
     cls = ctx.index.cls(ASM, "JacobianAssembly")
@@ -291,7 +590,7 @@ def check_dimensions(ctx: Ctx) -> None:
             n += 1
 
             def dim(e):
-                if isinstance(e, ast.Call) and norm_stmt(e.func) == "self.compute_dimension":
+                if dimension_names(ctx.index, cls, e) is not None:
                     return True
                 if isinstance(e, ast.BinOp) and isinstance(e.op, (ast.Add, ast.Sub)):
                     return dim(e.left) and dim(e.right)
